@@ -1,0 +1,25 @@
+//go:build verif
+
+// Contracts for the deductive verification in /verif (comment-only; compiled code is unaffected).
+package static
+
+// first-match permission semantics over the ordered table of a client (property C07)
+//@ spec opDenies(o string, op string) bool = eqfold(o, "none") || eqfold(o, "~" + op)
+//@ spec opAllows(o string, op string) bool = eqfold(o, "all") || eqfold(o, op)
+//@ spec pathMatch(p *path, w string, a string) bool = matches(p.wallet, w) && matches(p.account, a)
+//@ spec decide(paths []*path, w string, a string, op string) bool = exists p int, i int :: 0 <= p && p < len(paths) && 0 <= i && i < len(paths[p].operations) && pathMatch(paths[p], w, a) && opAllows(paths[p].operations[i], op) && !opDenies(paths[p].operations[i], op) && (forall q int, j int :: 0 <= q && q < len(paths) && 0 <= j && j < len(paths[q].operations) && (q < p || (q == p && j < i)) && pathMatch(paths[q], w, a) ==> !opAllows(paths[q].operations[j], op) && !opDenies(paths[q].operations[j], op))
+
+//@ func (*Service).Check
+//@ requires s != nil
+//@ requires [table] forall c string, k int :: c in s.access && 0 <= k && k < len(s.access[c]) ==> s.access[c][k] != nil && s.access[c][k].wallet != nil && s.access[c][k].account != nil
+//@ ensures [decision] result <==> (credentials != nil && credentials.Client != "" && wanOk(account) && wanW(account) != "" && credentials.Client in s.access && decide(s.access[credentials.Client], wanW(account), wanA(account), operation))
+//@ loop #1
+//@ invariant [range] 0 <= _n && _n <= len(paths)
+//@ invariant [nomatch] forall q int, j int :: 0 <= q && q < _n && 0 <= j && j < len(paths[q].operations) && pathMatch(paths[q], walletName, accountName) ==> !opAllows(paths[q].operations[j], operation) && !opDenies(paths[q].operations[j], operation)
+//@ loop #2
+//@ invariant [range] 0 <= _n && _n <= len(path.operations) && 0 <= _n1 && _n1 < len(paths) && path == paths[_n1] && pathMatch(path, walletName, accountName)
+//@ invariant [nobear] forall j int :: 0 <= j && j < _n ==> !opAllows(path.operations[j], operation) && !opDenies(path.operations[j], operation)
+
+// a configured name is matched against the whole actual name, ignoring case (empty = anything)
+//@ func regexify
+//@ ensures [wholename] result1 == nil ==> result0 != nil && (forall t string :: matches(result0, t) <==> fullmatch_ci(if name == "" then ".*" else name, t))
